@@ -410,7 +410,7 @@ def _evaluate(case):
 
 def run(ctx):
     if ctx.tier == "quick":
-        plan = [(["T:3"], [2, 1]), (["T:d3", "T:m4,8", "T:a3"], [2])]
+        plan = [(["T:3"], [2, 1]), (["T:d3", "T:m4,8", "T:a3"], [2])] + explore.extra_stages("light")
     else:
         plan = [(["T:3"], [2, 2]), (["T:3"], [1, 1, 1]), (["T:1", "T:u4", "TX:3"], [2, 2])]
     ctx.rule = ("E1 BFS over programs; per program: names of every node of the logical/simplified/physical/fused plan and the graph key "
